@@ -74,11 +74,9 @@ def main(tier):
             continue
         j = J["pkfb"]
         ok_tot = isinstance(j["result"], dict) and list(j["result"].get("enum", {}).keys()) == ["v0"]
-        pkv = j["result"]["enum"]["v0"][0] if ok_tot else None
-        while isinstance(pkv, list) and len(pkv) == 1:
-            pkv = pkv[0]
-        rho_tag = pkv[0].get("tag") if isinstance(pkv, list) and len(pkv) == 3 else None
-        tr_tag = pkv[1].get("tag") if isinstance(pkv, list) and len(pkv) == 3 else None
+        pkb = st.byte_fields(st.named_structs(j).get("types::PublicKey"))
+        rho_tag = next((t for n_, t in pkb.values() if n_ == 32), None)
+        tr_tag = next((t for n_, t in pkb.values() if n_ == 64), None)
         ob(rho_tag == "in.pk[0..32]", "B2:rho-is-key-prefix", {"rule": "B2 rho of a deserialised key is the exact copy of bytes 0..32 of the encoding", "entry": j["root"], "set": s, "rho_tag": rho_tag})
         xs = st.dedup(absorb.sites(j, "xof"))
         trs = [x for x in xs if tr_tag and x["id"] == tr_tag[3:].split("@")[0]]
